@@ -854,7 +854,54 @@ func init() {
 			pt(nativeDraw("Uint32Max(0)", rapid.Uint32Max(0), ws, false, seed, func(v uint32) string { return neq(v, uint32(0)) }))
 		}
 		// strings, regexps, Make
-		exprs := []string{`[a-z]{2,5}`, `^\d+$`, `(?i)abc|xyz`, `\w*\s?\pL+`, `a.c`, `^$`, `[^\n]{0,3}\b`, `(foo|ba[rz])+`, `\x00[\x{10000}-\x{10FFFF}]?`}
+		exprs := []string{`[a-z]{2,5}`, `^\d+$`, `(?i)abc|xyz`, `\w*\s?\pL+`, `a.c`, `^$`, `[^\n]{0,3}\b`, `(foo|ba[rz])+`, `\x00[\x{10000}-\x{10FFFF}]?`,
+			// without anchors or word boundaries, and still not "whatever the builder writes matches": classes that reach into the
+			// surrogates (written as U+FFFD), alternations that mix case-folded and plain branches, negated classes
+			`[\x{D7FB}-\x{E000}]`, `(?i:k)|x`, `[^a-z]{1,3}`, `(?i:s)|t`, `[\x{D800}-\x{DFFF}a]+`, `(?i:ab)|cd|[E-G]`}
+		// every expression with both generators on a few dozen seeds: whatever is generated matches
+		for _, expr := range exprs {
+			re := regexp.MustCompile(expr)
+			for k := 0; k < 30; k++ {
+				seed := r.u64()
+				what, _ := nativeDraw("StringMatching("+expr+")", rapid.StringMatching(expr), nil, true, seed, func(s string) string {
+					if !re.MatchString(s) {
+						return fmt.Sprintf("%q does not match", s)
+					}
+					return ""
+				})
+				if what == "" {
+					what, _ = nativeDraw("SliceOfBytesMatching("+expr+")", rapid.SliceOfBytesMatching(expr), nil, true, seed, func(s []byte) string {
+						if !re.Match(s) {
+							return fmt.Sprintf("%q does not match", s)
+						}
+						return ""
+					})
+				}
+				m.tag("regexp-sweep")
+				m.eval("regexp-sweep"+expr+fmt.Sprint(seed), true)
+				if what != "" {
+					report("native", what, map[string]string{"seed": fmt.Sprint(seed), "prng": "true", "words": ""})
+					break
+				}
+			}
+		}
+		// Make of same-named types from different scopes: each draw yields a value of the requested type (no panic inside
+		// Make or reflect), whichever type of that name was given to Make first
+		for i := 0; i < 4*scale; i++ {
+			ws := r.words(8)
+			a1i, a1r := c04MakeScope1a(ws)
+			b1i, b1r := c04MakeScope1b(ws)
+			b2i, b2r := c04MakeScope2b(ws)
+			a2i, a2r := c04MakeScope2a(ws)
+			m.tag("make-same-name-contract")
+			m.eval("make-names-contract|"+joinU64(ws), true)
+			for _, res := range []string{a1i, a1r, b1i, b1r, b2i, b2r, a2i, a2r} {
+				if strings.HasPrefix(res, "panic: ") {
+					report("native", "Make of a type whose name another type (of another scope) has as well: "+res, map[string]string{"words": joinU64(ws), "seed": "0", "prng": "false"})
+					break
+				}
+			}
+		}
 		for i := 0; i < 300*scale; i++ {
 			ws := r.words(60)
 			usePRNG := r.chance(1, 2)
@@ -1028,6 +1075,19 @@ func checkReplay2(prog *SX, seed uint64) (what string, nontrivial bool, isD2 boo
 	d3, e3, _ := runOnce(prog, rapid.VerifRandStream(seed, false))
 	if d1 != d3 || outcomeClass(e1) != outcomeClass(e3) {
 		return fmt.Sprintf("same seed gives [%s] %s then [%s] %s", d1, outcomeClass(e1), d3, outcomeClass(e3)), hasDiscard, isD2
+	}
+	// same seed on a T that logs (as the T of the final run of Check does): logging does not change what is drawn
+	{
+		in5 := newInterp(prog, false)
+		var e5 rapid.VerifErr
+		runTB(func() { e5 = rapid.VerifCheckOnce(rapid.VerifNewT(newRecTB("c04log"), rapid.VerifRandStream(seed, false), true), in5.prop) })
+		d5 := ""
+		if len(in5.invs) > 0 {
+			d5 = strings.Join(in5.invs[0].vals, ";")
+		}
+		if d1 != d5 || outcomeClass(e1) != outcomeClass(e5) {
+			return fmt.Sprintf("same seed on a T that logs its draws gives [%s] %s, on a quiet T [%s] %s", d5, outcomeClass(e5), d1, outcomeClass(e1)), hasDiscard, isD2
+		}
 	}
 	// pruned
 	var pruned rapid.VerifRec
@@ -1251,6 +1311,10 @@ var (
 func c04Draw[V any](g *rapid.Generator[V], ws []uint64) (res string) {
 	defer func() {
 		if p := recover(); p != nil {
+			if fmt.Sprintf("%T", p) == "rapid.invalidData" {
+				res = "invalid data: " + fmt.Sprint(p)
+				return
+			}
 			res = "panic: " + fmt.Sprint(p)
 		}
 	}()
@@ -1595,6 +1659,85 @@ func TestSkippy(t *testing.T) { rapid.Check(t, prop("skippy")) }
 			if cases[tag] != mode.want {
 				return fmt.Sprintf("test binary with %v: the passing %s check ran %d valid test cases, promised %d", mode.args, tag, cases[tag], mode.want), true
 			}
+		}
+	}
+	return "", true
+}
+
+// c18GoTest: without -rapid.seed, a check explores other test cases every time it runs — also one and the same
+// MakeCheck value run twice in a process (a package-level table of subtests), and Check called twice
+func c18GoTest(tmp string) (what string, ran bool) {
+	goBin, err := exec.LookPath("go")
+	if err != nil {
+		return "no go tool", false
+	}
+	repo := os.Getenv("VERIF_REPO")
+	if repo == "" {
+		repo = "/repo"
+	}
+	dir, err := os.MkdirTemp(tmp, "c18go-")
+	if err != nil {
+		return err.Error(), false
+	}
+	defer os.RemoveAll(dir)
+	sum, _ := os.ReadFile(filepath.Join(repo, "go.sum"))
+	_ = os.WriteFile(filepath.Join(dir, "go.sum"), sum, 0o644)
+	_ = os.WriteFile(filepath.Join(dir, "go.mod"), []byte("module c18probe\n\ngo 1.18\n\nrequire pgregory.net/rapid v0.0.0\n\nreplace pgregory.net/rapid => "+repo+"\n"), 0o644)
+	_ = os.WriteFile(filepath.Join(dir, "probe_test.go"), []byte(`package c18probe
+
+import (
+	"fmt"
+	"testing"
+
+	"pgregory.net/rapid"
+)
+
+var round = 0
+
+func prop(tag string) func(*rapid.T) {
+	return func(t *rapid.T) {
+		a := rapid.Uint64().Draw(t, "a")
+		b := rapid.SliceOfN(rapid.Uint8(), 0, 3).Draw(t, "b")
+		fmt.Printf("CASE %s%d %d %v\n", tag, round, a, b)
+	}
+}
+
+var shared = rapid.MakeCheck(prop("shared"))
+
+func TestShared(t *testing.T) {
+	round = 1
+	t.Run("first", shared)
+	round = 2
+	t.Run("second", shared)
+}
+
+func TestCheckTwice(t *testing.T) {
+	round = 1
+	rapid.Check(t, prop("check"))
+	round = 2
+	rapid.Check(t, prop("check"))
+}
+`), 0o644)
+	cmd := exec.Command(goBin, "test", "-vet=off", "-count=1", "-rapid.checks=12", ".")
+	cmd.Dir = dir
+	cmd.Env = append(os.Environ(), "GOFLAGS=-mod=mod", "GOPROXY=off", "GOSUMDB=off", "GOTOOLCHAIN=local")
+	out, err := cmd.CombinedOutput()
+	cases := map[string][]string{}
+	for _, ln := range strings.Split(string(out), "\n") {
+		if f := strings.SplitN(ln, " ", 3); len(f) == 3 && f[0] == "CASE" {
+			cases[f[1]] = append(cases[f[1]], f[2])
+		}
+	}
+	if err != nil && len(cases) == 0 {
+		return "go test did not run: " + tail(string(out), 300), false
+	}
+	for _, tag := range []string{"shared", "check"} {
+		a, b := cases[tag+"1"], cases[tag+"2"]
+		if len(a) != 12 || len(b) != 12 {
+			return fmt.Sprintf("the %s check ran %d and %d test cases, 12 were asked for", tag, len(a), len(b)), true
+		}
+		if strings.Join(a, ";") == strings.Join(b, ";") {
+			return fmt.Sprintf("without -rapid.seed, the %s check explored exactly the same 12 test cases when it ran the second time (first: %s)", tag, a[0]), true
 		}
 	}
 	return "", true
